@@ -50,7 +50,7 @@ def make_curve(desc, scale, rot=0):
             chainsegs.append(sg)
         back = [x.reversed() for x in reversed(chainsegs)]
         again = [type(x)(*x.bpoints()) for x in chainsegs]
-        return Path(*(chainsegs + back + again))
+        return AB.derive_path(Path(*(chainsegs + back + again)))
     segs = []
     pen = None
     for n in desc:
@@ -63,7 +63,7 @@ def make_curve(desc, scale, rot=0):
                 s = Arc(pen, s.radius, s.rotation, s.large_arc, s.sweep, s.end)
         segs.append(s)
         pen = s.end
-    return Path(*segs)
+    return AB.derive_path(Path(*segs))
 
 
 DENSE = False
@@ -88,7 +88,9 @@ def out_of_range(L):
 def check_curve(desc, scale, acc, only_s=None, rot=0):
     curve = make_curve(desc, scale, rot)
     kind = 'P' if isinstance(curve, Path) else type(curve).__name__[0]
-    L = curve.length()
+    # the reference lengths come from a copy built from the public attributes (nothing an earlier call left behind)
+    ref = Path(*[AB.fresh_copy(g) for g in curve]) if isinstance(curve, Path) else AB.fresh_copy(curve)
+    L = ref.length()
     segs = list(curve) if isinstance(curve, Path) else [curve]
     speed_zero = any(not isinstance(g, (Arc, Line)) and
                      (refgeom.speed_zero_in(list(g.bpoints()), 0, 1) or refgeom.near_speed_zero(list(g.bpoints()), 0, 1))
@@ -140,15 +142,15 @@ def check_curve(desc, scale, acc, only_s=None, rot=0):
                 acc.violation('ilength_L_not_1', sig, case, observed=t)
             counter['n'] = -10 ** 9
             if not isinstance(curve, Path):
-                st = curve.length(0, t)
+                st = ref.length(0, t)
             elif t == 0:
                 st = 0.0
             else:
                 # arc length up to T through the path's own T2t (C05 decides that map); the segment
                 # parameter is clamped because T2t may return 1 + eps/fraction at a boundary
-                k, u = curve.T2t(t)
+                k, u = ref.T2t(t)
                 u = min(max(u, 0.0), 1.0)
-                st = sum(curve[i].length() for i in range(k)) + curve[k].length(0, u)
+                st = sum(ref[i].length() for i in range(k)) + ref[k].length(0, u)
             tol = max(1e-12, 4096 * math.ulp(L))
             if speed_zero:
                 # C06 only promises 5e-3 relative for length() across a point of zero speed (the
@@ -221,6 +223,60 @@ def check_call_sequences(desc, scale, acc, only=None):
                               detail='tolerance %g; first call was ilength(%r, s_tol=%r)' % (tol, a[0], a[1]))
 
 
+ILENGTH_OPTS = [
+    ('error_loose_keyword', lambda c, s_, L: c.ilength(s_, error=1e-6 * L), 0.0),
+    ('error_loose_positional', lambda c, s_, L: c.ilength(s_, 1e-12, 10000, 1e-6 * L, 5), 0.0),
+    ('error_and_depth_loose', lambda c, s_, L: c.ilength(s_, error=1e-3 * L, min_depth=0), 0.0),
+    ('s_tol_and_maxits_keyword', lambda c, s_, L: c.ilength(s_, s_tol=1e-9 * L, maxits=200), 1e-9),
+    ('s_tol_positional', lambda c, s_, L: c.ilength(s_, 1e-7 * L), 1e-7),
+    ('s_tol_tight_error_loose', lambda c, s_, L: c.ilength(s_, s_tol=1e-10 * L, error=1e-2 * L, min_depth=1), 1e-10),
+    ('min_depth_raised', lambda c, s_, L: c.ilength(s_, min_depth=8), 0.0),
+]
+
+
+def check_options(desc, scale, acc, only=None):
+    """non-default s_tol / maxits / error / min_depth, by keyword and by position, on curves whose segments have
+    closed-form lengths (lines and quadratics: error and min_depth do not enter their lengths, so the answer must
+    meet s_tol whatever error says) - and on every curve when only s_tol / min_depth are changed"""
+    probe = make_curve(desc, scale)
+    segs = list(probe) if isinstance(probe, Path) else [probe]
+    exact = all(isinstance(g, (Line, QuadraticBezier)) for g in segs)
+    kind = 'P' if isinstance(probe, Path) else type(probe).__name__[0]
+    if any(not isinstance(g, (Arc, Line)) and (refgeom.speed_zero_in(list(g.bpoints()), 0, 1) or
+                                               refgeom.near_speed_zero(list(g.bpoints()), 0, 1)) for g in segs):
+        acc.filt('options_skip_speed_zero')
+        return
+    ref = Path(*[AB.fresh_copy(g) for g in probe]) if isinstance(probe, Path) else AB.fresh_copy(probe)
+    L = ref.length()
+    for oname, fn, rel_tol in ILENGTH_OPTS:
+        if 'error' in oname and not exact:
+            continue
+        for f in (1 / 3.0, 0.5, 0.9):
+            if only is not None and (only['option'], only['fraction']) != (oname, f):
+                continue
+            curve = make_curve(desc, scale)
+            s_ = f * L
+            case = {'curve': desc, 'scale': scale, 'option': oname, 'fraction': f}
+            acc.case(case, cls='options/%s/%s' % (kind, oname))
+            with warnings.catch_warnings():
+                warnings.simplefilter('ignore')
+                r = outcome(lambda: fn(curve, s_, L))
+            sig = {'kind': kind, 'option': oname}
+            if r[0] != 'ok' or not 0 <= float(r[1]) <= 1:
+                acc.violation('ilength_raises_or_does_not_terminate', dict(sig, exc=r[1] if r[0] != 'ok' else 'out_of_range'), case, observed=r)
+                continue
+            t = float(r[1])
+            if not isinstance(ref, Path):
+                st = ref.length(0, t)
+            else:
+                k, u = ref.T2t(t)
+                st = sum(ref[i].length() for i in range(k)) + ref[k].length(0, min(max(u, 0.0), 1.0))
+            tol = rel_tol * L + max(1e-12, 4096 * math.ulp(L)) * (4 if isinstance(ref, Path) else 1)
+            if not abs(st - s_) <= tol:
+                acc.violation('does_not_invert_length', sig, case, observed={'t': t, 'length(0,t)': st}, expected=s_,
+                              detail='tolerance %g (requested s_tol %g L), L=%r' % (tol, rel_tol, L))
+
+
 MUTATIONS = [('setitem', -1.0, -2.0), ('setitem', -3.0, -4.0), ('start=', -1.0, -2.0), ('start=', -3.0, -4.5),
              ('setitem_imag', -1.0, -2.0), ('end=', -1.0, -2.0)]
 
@@ -273,7 +329,10 @@ def shards(tier, seed):
     out += [{'what': 'sequences', 'curve': d, 'scale': sc} for d in SHAPES + [list(p) for p in PATHS]
             for sc in ([1.0] if tier == 'quick' else [1.0, 1e-2, 1e3])]
     out += [{'what': 'mutation', 'mi': i} for i in range(len(MUTATIONS))]
-    out += AB.provenance_shards(out, tier, lambda d: 'what' not in d and isinstance(d['curve'], str) and d['scale'] == 1.0 and d['rot'] == 0)
+    out += AB.provenance_shards(out, tier, lambda d: 'what' not in d and isinstance(d['curve'], str) and d['scale'] == 1.0 and d['rot'] == 0) + \
+        AB.provenance_shards(out, 'thorough', lambda d: 'what' not in d and not isinstance(d['curve'], str) and d['scale'] == 1.0 and d['rot'] == 0, key='pprov',
+                             values=['measured', 'reversed_twice', 'parsed', 'loosely_measured', 'segments_loosely_measured',
+                                     'loosely_measured_reversed_twice', 'strict_arcs', 'module_settings_changed_and_restored'])
     return out
 
 
@@ -287,6 +346,7 @@ def run_shard(desc, tier, seed):
     d = desc['curve']
     if desc.get('what') == 'sequences':
         check_call_sequences(d if isinstance(d, str) else tuple(d), desc['scale'], acc)
+        check_options(d if isinstance(d, str) else tuple(d), desc['scale'], acc)
         return acc
     check_curve(d if isinstance(d, str) else tuple(d), desc['scale'], acc, rot=desc.get('rot', 0))
     return acc
@@ -301,6 +361,7 @@ def space(tier, seed):
     return {'shapes': SHAPES, 'paths': PATHS, 'scales': tier_params(tier, seed)['scales'], 'rotations': tier_params(tier, seed)['rots'],
             's_alphabet': '0, L, L*2^-30, L/7, L/3, L/2, 0.9L, L(1-2^-52), L(1-1e-9), nextafter(0,1), 1e-9 L, path segment boundaries and their float neighbours; out of range: -L/10, -tiny, L(1+1e-9), 2L',
             'length_evaluation_budget': BUDGET,
+            'options': [o[0] for o in ILENGTH_OPTS],
             'call_sequences': 'all ordered pairs of 12 calls (s in {L/3, L/3+1e-4L, L/2, 0.9L} x s_tol in {default, 1e-2 L, 1e-6 L}) on one object',
             'after_mutation': [list(m) for m in MUTATIONS]}
 
@@ -312,6 +373,9 @@ def replay(case):
         acc.vlist = [v for v in acc.vlist if v['case'] == case]
         return acc.vlist
     d = case['curve']
+    if 'option' in case:
+        check_options(d if isinstance(d, str) else tuple(d), case['scale'], acc, only=case)
+        return acc.vlist
     if 'sequence' in case:
         check_call_sequences(d if isinstance(d, str) else tuple(d), case['scale'], acc, only=case['sequence'])
         return acc.vlist
